@@ -48,7 +48,7 @@ NOTES = {
 NOT_YET = "check not built yet in this session (work in progress; see DESIGN.md §4 for the planned model-checking design)"
 m = {
  "version": 1,
- "setup_cmd": "cd /verif && mkdir -p bin && (cd driver && GOFLAGS= GOPROXY=off GOSUMDB=off GOTOOLCHAIN=local GOWORK=off go build -o ../bin/driver .) && (VERIF_DEADLINE_S=1 ./check C11 quick >/dev/null 2>&1; true)",
+ "setup_cmd": "cd /verif && mkdir -p bin && (cd driver && GOFLAGS= GOPROXY=off GOSUMDB=off GOTOOLCHAIN=local GOWORK=off go build -o ../bin/driver .) && (VERIF_DEADLINE_S=1 ./check C11 quick >/dev/null 2>&1; true) && (cd /repo/cmd/hranoprovod-cli && GOFLAGS= GOPROXY=off GOSUMDB=off GOTOOLCHAIN=local go build -race -o /dev/null . >/dev/null 2>&1; true)",
  "hooks": {
   "guard": "verif",
   "enable": "no source commits: instrumentation is generated at check time by /verif/driver (type-driven rewriter) into a `go test -c -tags verif -overlay` build of /repo's working tree",
@@ -60,9 +60,11 @@ m = {
   {"name": "mc", "path": "harness/mc.go", "serves_properties": sorted(CHECKS),
    "kind_free_text": "stateless explorer written for this task: depth-first enumeration of all choice vectors by re-execution of the real code (inputs, layouts, map iteration orders, fault offsets, schedules are all Choose() points), deviation budgets per class, 16 process shards, determinism audit, replay files"},
   {"name": "rewriter", "path": "driver/rewrite.go", "serves_properties": sorted(CHECKS),
-   "kind_free_text": "go/types-driven source rewriter producing a build overlay: map-order seam at every range over a map, channel seam (send, select, receive, go, close) in package parser"},
-  {"name": "sched", "path": "harness/sched.go", "serves_properties": ["C18"],
-   "kind_free_text": "cooperative scheduler over a model of Go channels: real goroutines run one at a time and park at channel operations; transitions = enabled communications, select cases, arrivals, defaults; deadlock detection"},
+   "kind_free_text": "go/types-driven source rewriter producing a build overlay: map-order seam at every range over a map; in every package of both modules: channel seam (send, select, receive, range, go, close), package sync replaced by a cooperating stand-in (WaitGroup, Mutex, RWMutex), sync/atomic by one in which every operation is a scheduling point; per-package functions that re-initialise package-level variables"},
+  {"name": "sched", "path": "harness/sched.go", "serves_properties": sorted(CHECKS),
+   "kind_free_text": "cooperative scheduler over a model of Go channels, WaitGroups, mutexes and atomic operations: real goroutines run one at a time and park at these operations; transitions = enabled communications, select cases, arrivals, defaults, lock grants; the running thread is listed first, so a departure from the default is a preemption (bounded per exploration); deadlock detection; C18 drives the parser with it, every in-process application run of every check is its thread 'main' (one preemption by default, all schedules in C05)"},
+  {"name": "apprace", "path": "driver/apprace.go", "serves_properties": ["C05", "C08"],
+   "kind_free_text": "free-running pass of the un-instrumented program built with -race (complementary, not deciding): data-race reports, differing outcomes of identical runs, runs that do not end"},
   {"name": "faultio", "path": "harness/faultio.go", "serves_properties": ["C10", "C17"],
    "kind_free_text": "fault-injecting io.Reader / io.Writer behind the repository's own CmdUtils seam: fails from byte offset k, error alone or with the last bytes, short reads and short writes"},
  ],
